@@ -8,6 +8,7 @@ import (
 	"sync"
 
 	api "k8s.io/api/core/v1"
+	discoveryv1 "k8s.io/api/discovery/v1"
 	networking "k8s.io/api/networking/v1"
 	apierrors "k8s.io/apimachinery/pkg/api/errors"
 	"k8s.io/apimachinery/pkg/labels"
@@ -23,6 +24,7 @@ var scheme = func() *runtime.Scheme {
 	s := runtime.NewScheme()
 	_ = api.AddToScheme(s)
 	_ = networking.AddToScheme(s)
+	_ = discoveryv1.AddToScheme(s)
 	_ = gatewayv1.AddToScheme(s)
 	_ = gatewayv1beta1.AddToScheme(s)
 	_ = gatewayv1alpha2.AddToScheme(s)
